@@ -430,6 +430,14 @@ def eval_unit(unit, acc, base):
             acc.check("cache-transparent", _eq(b, ref[i][0]) and _eq(a, ref[i][1]), size, unit,
                       {"step": "requery-desc", "rep": rep, "t": INSTANT_STR[i]}, (b, a), ref[i])
 
+    # a FRESH source on the same directory whose first pass is DESCENDING must give the answers of the ascending first
+    # pass of sA: an answer may not depend on which queries the object answered before (memo with a coarser key than the query)
+    sF = _source(dA, adjust)
+    for i in range(NI - 1, -1, -1):
+        b, a = _call(sF.get_bid, _TS[i], "EQ:A"), _call(sF.get_ask, _TS[i], "EQ:A")
+        acc.check("cache-transparent", _eq(b, ref[i][0]) and _eq(a, ref[i][1]), size, unit,
+                  {"step": "fresh-source-descending-first-pass", "t": INSTANT_STR[i]}, (b, a), ref[i])
+
     # data handler over the single source agrees with the source
     h = BacktestDataHandler(None, data_sources=[sA])
     for i, ts in enumerate(_TS):
